@@ -618,14 +618,188 @@ func (r *c09Rig) run(plan c09Plan, tag string) c09Outcome {
 	return out
 }
 
+// c09Listener is a ServerTransport double: what the learned-route table keeps
+// per host is the listener that saw it.
+type c09Listener struct {
+	proto, addr string
+	port        int
+}
+
+func (l *c09Listener) Start(MessageHandler) error       { return nil }
+func (l *c09Listener) Send(string, int, *Message) error { return nil }
+func (l *c09Listener) GetProtocol() string              { return l.proto }
+func (l *c09Listener) GetAddress() string               { return l.addr }
+func (l *c09Listener) GetPort() int                     { return l.port }
+func (l *c09Listener) IsExit() bool                     { return false }
+
+type c09Sink struct {
+	addr string
+	hits int64
+}
+
+func (b *c09Sink) Send(*Message) error { atomic.AddInt64(&b.hits, 1); return nil }
+func (b *c09Sink) GetAddress() string  { return b.addr }
+func (b *c09Sink) Close()              {}
+
+// c09SharedObjects drives the two objects every listener of a service shares
+// with the others and with the resolver's goroutines - the learned-route table
+// and the rotation - from several goroutines at once, the way the message
+// loops do, and judges them by what sequential use promises: a host a loop has
+// learned is known from then on (to that loop at once, to everybody once all
+// loops are done), with the listener that learned it last; a dispatch reaches
+// exactly one backend whatever is being added or removed meanwhile.
+func c09SharedObjects(rt *rapid.T) string {
+	procs := rapid.SampledFrom([]int{2, 4, 8, 16}).Draw(rt, "gomaxprocs")
+	loops := rapid.IntRange(2, 6).Draw(rt, "message loops")
+	perLoop := rapid.IntRange(200, 3000).Draw(rt, "hosts learned per loop")
+	perMsg := rapid.IntRange(1, 8).Draw(rt, "hosts learned per message")
+	old := runtime.GOMAXPROCS(procs)
+	defer runtime.GOMAXPROCS(old)
+	var fmu sync.Mutex
+	fail := ""
+	setFail := func(f string, a ...any) {
+		fmu.Lock()
+		if fail == "" {
+			fail = fmt.Sprintf(f, a...)
+		}
+		fmu.Unlock()
+	}
+	guard := func(what string) {
+		if p := recover(); p != nil {
+			setFail("panic in %s: %v", what, p)
+		}
+	}
+
+	table := NewSelfLearnRoute()
+	listeners := make([]*c09Listener, loops)
+	for i := range listeners {
+		listeners[i] = &c09Listener{proto: []string{"udp", "tcp"}[i%2], addr: fmt.Sprintf("127.9.0.%d", i+1), port: 5060 + i}
+	}
+	host := func(loop, i int) string { return fmt.Sprintf("h%d-%d.learn.test", loop, i) }
+	same := func(got ServerTransport, want *c09Listener) bool {
+		return got != nil && got.GetProtocol() == want.proto && got.GetAddress() == want.addr && got.GetPort() == want.port
+	}
+	var start, wg sync.WaitGroup
+	start.Add(1)
+	for li := 0; li < loops; li++ {
+		wg.Add(1)
+		go func(li int) {
+			defer wg.Done()
+			defer guard("the learned-route table")
+			start.Wait()
+			me := listeners[li]
+			for i := 0; i < perLoop; {
+				n := perMsg
+				if i+n > perLoop {
+					n = perLoop - i
+				}
+				for k := 0; k < n; k++ {
+					table.AddRoute(host(li, i+k), me)
+				}
+				i += n
+				// a host seen again (the fast path) and one learned a while ago
+				table.AddRoute(host(li, i-1), me)
+				for _, j := range []int{i - 1, i / 2, 0} {
+					got, ok := table.GetRoute(host(li, j))
+					if !ok || !same(got, me) {
+						setFail("learned-route table, %d loops: loop %d learned host %s through %s:%s:%d and does not find it (correctly) %d additions later: found=%v", loops, li, host(li, j), me.proto, me.addr, me.port, i-j, ok)
+						return
+					}
+				}
+			}
+		}(li)
+	}
+	start.Done()
+	wg.Wait()
+	lost := 0
+	first := ""
+	for li := 0; li < loops && fail == ""; li++ {
+		for i := 0; i < perLoop; i++ {
+			got, ok := table.GetRoute(host(li, i))
+			if !ok || !same(got, listeners[li]) {
+				lost++
+				if first == "" {
+					first = host(li, i)
+				}
+			}
+		}
+	}
+	if lost > 0 {
+		setFail("learned-route table: %d loops learned %d hosts each at the same time; afterwards %d of them are unknown or bound to another listener (first: %s)", loops, perLoop, lost, first)
+	}
+	if fail != "" {
+		return fail
+	}
+
+	// the rotation: loops dispatch while the resolver's goroutine adds and removes
+	rb := NewRoundRobinBackend()
+	stable := []*c09Sink{{addr: "10.9.0.1:5060"}, {addr: "10.9.0.2:5060"}}
+	for _, b := range stable {
+		rb.AddBackend(b)
+	}
+	extra := []*c09Sink{{addr: "10.9.0.3:5060"}, {addr: "10.9.0.4:5060"}}
+	perDisp := rapid.IntRange(500, 20000).Draw(rt, "dispatches per loop")
+	var done int32
+	var sent int64
+	var dwg sync.WaitGroup
+	for li := 0; li < loops; li++ {
+		dwg.Add(1)
+		go func() {
+			defer dwg.Done()
+			defer guard("a dispatch while backends come and go")
+			for i := 0; i < perDisp; i++ {
+				if err := rb.Send(&Message{}); err != nil {
+					setFail("rotation: a dispatch failed although two backends were registered all the time: %v", err)
+					return
+				}
+				atomic.AddInt64(&sent, 1)
+			}
+		}()
+	}
+	var mwg sync.WaitGroup
+	mwg.Add(1)
+	go func() {
+		defer mwg.Done()
+		defer guard("a membership change")
+		for i := 0; atomic.LoadInt32(&done) == 0; i++ {
+			e := extra[i%2]
+			rb.AddBackend(e)
+			if i%3 == 0 {
+				runtime.Gosched()
+			}
+			rb.RemoveBackend(e.addr)
+		}
+	}()
+	dwg.Wait()
+	atomic.StoreInt32(&done, 1)
+	mwg.Wait()
+	if fail != "" {
+		return fail
+	}
+	var hits int64
+	for _, b := range append(append([]*c09Sink{}, stable...), extra...) {
+		hits += atomic.LoadInt64(&b.hits)
+	}
+	if hits != sent {
+		return fmt.Sprintf("rotation: %d dispatches returned without error while backends were added and removed, the backends received %d", sent, hits)
+	}
+	return ""
+}
+
 func TestC09(t *testing.T) {
-	V.Rule("lab under the race detector: rapid draws load plans - GOMAXPROCS in {2,4,8,16}, 2-12 UDP and 1-8 TCP stop-and-wait clients spread over three listen entries of one service (shared learned-route table; UDP and TCP listeners; UDP, TCP and dynamically resolved backends), 30-250 transactions each with unique identifiers in a fixed mix (OPTIONS - every other one to a To host never seen before -, dialog-creating INVITE answered with a To-tag, in-dialog INFO of an unknown dialog, MESSAGE with one of two static routes whose next hops are host-table names), backends that answer every request, optional membership churn through the resolver's addressResolved entry point, sparse (a change every 70-110 ms) or fast (every 100-400 us), at least one stable backend per listen entry, every fourth transaction preceded by a request whose first Route entry names an unknown host with the listener's port (looked up, unreachable, dropped), optional hammering of ByteArrayPool, ClientTransportMgr, DynamicHostResolver and a host table from three goroutines. Oracle: no race report, no fatal error or panic, every client finishes (no transaction waits more than 20 s unless a membership change was in flight), every request reached exactly one backend of the listen entry it was sent to (at most one while a change was in flight), every response returned to the client that sent the request, every request body (a function of its Call-ID; TCP clients pipeline a companion request now and then) arrived intact. non-trivial = plan with >= 2 listeners receiving simultaneously and >= 1 membership change during traffic; distinct by plan")
+	V.Rule("lab under the race detector: rapid draws load plans - GOMAXPROCS in {2,4,8,16}, 2-12 UDP and 1-8 TCP stop-and-wait clients spread over three listen entries of one service (shared learned-route table; UDP and TCP listeners; UDP, TCP and dynamically resolved backends), 30-250 transactions each with unique identifiers in a fixed mix (OPTIONS - every other one to a To host never seen before -, dialog-creating INVITE answered with a To-tag, in-dialog INFO of an unknown dialog, MESSAGE with one of two static routes whose next hops are host-table names), backends that answer every request, optional membership churn through the resolver's addressResolved entry point, sparse (a change every 70-110 ms) or fast (every 100-400 us), at least one stable backend per listen entry, every fourth transaction preceded by a request whose first Route entry names an unknown host with the listener's port (looked up, unreachable, dropped), optional hammering of ByteArrayPool, ClientTransportMgr, DynamicHostResolver and a host table from three goroutines; unit (shared-objects): the learned-route table taught 200-3000 hosts by each of 2-6 loops at once (every host known afterwards, with its listener; a loop finds what it learned itself at once) and the rotation dispatching from 2-6 loops while two further backends are added and removed without pause (no panic, every dispatch at exactly one backend). Oracle: no race report, no fatal error or panic, every client finishes (no transaction waits more than 20 s unless a membership change was in flight), every request reached exactly one backend of the listen entry it was sent to (at most one while a change was in flight), every response returned to the client that sent the request, every request body (a function of its Call-ID; TCP clients pipeline a companion request now and then) arrived intact. non-trivial = plan with >= 2 listeners receiving simultaneously and >= 1 membership change during traffic; distinct by plan")
 	V.Assume("schedules are sampled by the Go scheduler under the drawn plan, not enumerated: this check can expose races, never show their absence")
-	V.Require("engine:bin (-race binary under load)", "plan with fast churn", "plan with churn", "plan with hammering", ">=2 listeners in parallel", "tcp and udp clients together")
+	V.Require("unit: learned-route table and rotation driven by several loops at once", "engine:bin (-race binary under load)", "plan with fast churn", "plan with churn", "plan with hammering", ">=2 listeners in parallel", "tcp and udp clients together")
 	rig, err := newC09Rig(false)
 	if err != nil {
 		V.HarnessError(t, "cannot start lab instance: %v", err)
 	}
+	rcheck(t, "shared-objects", V.N(12, 120), func(rt *rapid.T) {
+		V.Class("unit: learned-route table and rotation driven by several loops at once")
+		if f := c09SharedObjects(rt); f != "" {
+			failf(rt, "%s", f)
+		}
+	})
 	n := 0
 	rcheck(t, "plans", V.N(8, 14), func(rt *rapid.T) {
 		plan := c09Plan{
